@@ -91,12 +91,15 @@ func (o Op) String() string {
 			s += fmt.Sprintf(" from handle src=%d", o.Src)
 		case FromEmbed:
 			s += fmt.Sprintf(" from data embedding handle src=%d", o.Src)
-		case FromConfig, FromRepr:
+		case FromConfig, FromRepr, FromStruct:
 			s += " from " + o.From
 		}
 	}
 	if o.Kind == Reattach {
 		s += fmt.Sprintf(" src=%d", o.Src)
+	}
+	if o.Kind == SetChild && o.From == FromStruct {
+		s += " (config built from struct representations)"
 	}
 	if o.MaxIdx != nil {
 		s += fmt.Sprintf(" MaxIdx(%d)", *o.MaxIdx)
@@ -114,6 +117,8 @@ type Case struct {
 	Init    *gen.Tree `json:"init,omitempty"`
 	Ops     []Op      `json:"ops"`
 	Reads   []Addr    `json:"reads,omitempty"` // addresses of the point reads made after every step
+	// InitRepr: the initial tree is given to NewFrom in the struct representations chosen by its R fields (StructRepr)
+	InitRepr bool `json:"initrepr,omitempty"`
 	// ExclD14 counts the re-attachment operations the generator constructed away
 	// because finding D14 is open.
 	ExclD14 int `json:"excl_d14,omitempty"`
@@ -213,8 +218,11 @@ func New(c Case, noMixed bool) (*State, bool, error) {
 		}
 		var err error
 		err = uc.Safe("NewFrom", func() error {
-			var e error
-			cfg, e = ucfg.NewFrom(c.Init.Go(), s.Opts...)
+			v, e := treeValue(c.Init, c.InitRepr, s.Opts, nil)
+			if e != nil {
+				return e
+			}
+			cfg, e = ucfg.NewFrom(v, s.Opts...)
 			return e
 		})
 		if err != nil {
@@ -498,9 +506,15 @@ func (s *State) Apply(op Op) (Info, error) {
 		}
 		info.EmptyBrought = model.HasEmptyList(op.Val)
 		var fresh *ucfg.Config
+		if op.From == FromStruct {
+			info.Reprs = map[string]int{}
+		}
 		if err := uc.Safe("NewFrom", func() error {
-			var e error
-			fresh, e = ucfg.NewFrom(op.Val.Go(), s.Opts...)
+			v, e := treeValue(op.Val, op.From == FromStruct, s.Opts, info.Reprs)
+			if e != nil {
+				return e
+			}
+			fresh, e = ucfg.NewFrom(v, s.Opts...)
 			return e
 		}); err != nil {
 			return info, fmt.Errorf("%s: NewFrom(tree) failed: %v", what, err)
@@ -650,6 +664,23 @@ func (s *State) Apply(op Op) (Info, error) {
 			src, isCfg = fresh, true
 			srcHandle = &Handle{C: fresh, M: from}
 			info.Source = "fresh *Config"
+		case FromStruct:
+			if op.Val == nil || !op.Val.IsCont() {
+				info.Skipped = "merge without a tree"
+				return info, nil
+			}
+			info.Reprs = map[string]int{}
+			v, err := treeValue(op.Val, true, s.Opts, info.Reprs)
+			if err != nil {
+				return info, fmt.Errorf("%s: %v", what, err)
+			}
+			var terr error
+			if from, terr = model.FromTreeSep(op.Val, s.Sep, true); terr != nil {
+				info.Skipped = "tree with conflicting keys"
+				return info, nil
+			}
+			src = v
+			info.Source = "struct representations"
 		case FromRepr:
 			if op.Val == nil || !op.Val.IsCont() {
 				info.Skipped = "merge without a tree"
@@ -963,6 +994,11 @@ type GenCfg struct {
 	// BadMerge (out of 20): chance that a Merge from generic data holds a value of unsupported type somewhere
 	// (the Merge must fail and change nothing)
 	BadMerge int
+	// Structs (out of 10): chance that the initial tree, the tree of a SetChild, or the value of a Merge from
+	// generic data is handed over in Go struct representations (structs.go: structs by value and pointer,
+	// typed slices / arrays / maps of structs, nested), half of those trees being a list of objects with the
+	// same keys below an existing or a new key
+	Structs int
 }
 
 // listOf splits an address that denotes a list element into the address of the
@@ -1252,6 +1288,7 @@ func Gen(t *rapid.T, g *GenCfg) Case {
 				}
 			}
 		}
+		noFold := false // the tree is kept as drawn (a list of objects with the same keys for the struct representations)
 		dotted := g.Dotted > 0 && c.PathSep && (kind == SetChild || kind == Merge) && rapid.IntRange(0, 9).Draw(t, "dotted") < g.Dotted
 		switch kind {
 		case Set:
@@ -1307,6 +1344,13 @@ func Gen(t *rapid.T, g *GenCfg) Case {
 					op.Name = respellName(t, g, op.Name, c.PathSep, "embed")
 				}
 			}
+			if g.Structs > 0 && op.From == FromData && rapid.IntRange(0, 9).Draw(t, "structs") < g.Structs {
+				op.From = FromStruct
+				if rapid.Bool().Draw(t, "structtree") {
+					op.Val = structTree(t, g)
+					noFold = true
+				}
+			}
 			if g.BadMerge > 0 && op.From == FromData && rapid.IntRange(0, 19).Draw(t, "badmerge") < g.BadMerge {
 				op.Fault = rapid.IntRange(1, 12).Draw(t, "fault")
 			}
@@ -1328,10 +1372,20 @@ func Gen(t *rapid.T, g *GenCfg) Case {
 		case Reattach:
 			op.Src = rapid.IntRange(0, 5).Draw(t, "src")
 		}
-		if dotted && op.Val != nil && op.Val.IsCont() {
+		if kind == SetChild && g.Structs > 0 && rapid.IntRange(0, 9).Draw(t, "childstructs") < g.Structs {
+			op.From = FromStruct
+			if rapid.Bool().Draw(t, "childstructtree") {
+				op.Val = structTree(t, g)
+				noFold = true
+			}
+		}
+		if dotted && !noFold && op.Val != nil && op.Val.IsCont() {
 			op.Val = FoldKeys(t, op.Val, g.Respell, "")
 		}
 		respellKeys(t, g, op.Val)
+		if op.From == FromStruct {
+			assignStructReprs(t, op.Val)
+		}
 		c.Ops = append(c.Ops, op)
 		if kind == Remove && g.Drain > 0 {
 			if list, idx, ok := listOf(drainAddr, c.PathSep); ok && rapid.IntRange(0, 9).Draw(t, "drain") < g.Drain {
@@ -1358,6 +1412,13 @@ func Gen(t *rapid.T, g *GenCfg) Case {
 		c.Init = FoldKeys(t, c.Init, g.Respell, "init")
 	}
 	respellKeys(t, g, c.Init)
+	if g.Structs > 0 && c.Init != nil && rapid.IntRange(0, 9).Draw(t, "initstructs") < g.Structs {
+		c.InitRepr = true
+		if rapid.IntRange(0, 2).Draw(t, "initstructlist") == 0 {
+			c.Init.Put(rapid.SampledFrom(g.Trees.Keys).Draw(t, "initstructname"), genStructList(t, g))
+		}
+		assignStructReprs(t, c.Init)
+	}
 	all := append(append([]Addr{}, used...), usedVia...)
 	for i := 0; i < g.NReads; i++ {
 		label := "read" + strconv.Itoa(i)
